@@ -378,6 +378,14 @@ def chain_variants(rec, batch):
         except Exception:
             pass
         calls = [(None, t, 0, True) for t in ins]
+        # every rule / class of the chain as entry point through the leaf module -- inherited ones
+        # included (the saved leaf source re-exports what it inherits)
+        names = []
+        for G in grammars:
+            for st in G['stmts']:
+                if st[0] in ('rule', 'class') and st[2] is None and st[1] not in names:
+                    names.append(st[1])
+        calls += [(n, t, 0, True) for n in names[:6] for t in ins[:6]]
         expected = [call_outcome(g, e, t, p, f) for e, t, p, f in calls]
         rec.case(len(calls))
         rec.count('chain_descriptions')
